@@ -381,7 +381,7 @@ func buildUpgrader(c scfg) ws.Upgrader {
 		}
 	}
 	if c.ExtraHeader {
-		u.Header = ws.HandshakeHeaderString("X-Server: verif\r\n")
+		u.Header = headerForm(c.Rbuf+c.Wbuf+c.Chunk+len(c.Accept), "X-Server", "verif")
 	}
 	switch c.Reject {
 	case "onrequest":
@@ -483,3 +483,17 @@ func runServer(api string, raw []byte, c scfg, key string) (o sobs, ran bool) {
 }
 
 var _ = vh.Ints
+
+// headerForm renders one extra header through each of the four HandshakeHeader adapters in turn.
+func headerForm(i int, name, value string) ws.HandshakeHeader {
+	line := name + ": " + value + "\r\n"
+	switch i % 4 {
+	case 0:
+		return ws.HandshakeHeaderString(line)
+	case 1:
+		return ws.HandshakeHeaderBytes([]byte(line))
+	case 2:
+		return ws.HandshakeHeaderFunc(func(w io.Writer) (int64, error) { n, err := io.WriteString(w, line); return int64(n), err })
+	}
+	return ws.HandshakeHeaderHTTP(http.Header{name: []string{value}})
+}
